@@ -2,7 +2,11 @@
 """prints the prompt for a seeding sub-agent for property <id> (only the property text and the scratch paths)"""
 import json,sys
 pid=sys.argv[1]
+round2 = len(sys.argv) > 2
+sid = pid + ("-r2" if round2 else "")
+prev = json.load(open(f"/verif/seeded/{pid}/meta.json")) if round2 else None
 p=[json.loads(l) for l in open('/verif/properties.jsonl') if json.loads(l)['id']==pid][0]
+extra = (f"A first change for this property has already been collected (files {prev['files_changed']}; trigger: {prev['needs_to_manifest']}). Yours must be of a DIFFERENT kind: a different code site and a different trigger, exercising another part of the statement.\n\nIMPORTANT: never use `git stash` (it is shared between worktrees); to toggle your change use `git diff > /tmp/seed-out/{sid}/p.diff; git apply -R /tmp/seed-out/{sid}/p.diff; ...; git apply /tmp/seed-out/{sid}/p.diff`.\n\n") if round2 else ""
 print(f"""You are helping to evaluate a verification effort for the Rust project toml-rs/toml (crates toml, toml_edit, toml_datetime, toml_write, serde_spanned). You get ONE semantic property of the library and your own scratch git worktree of the repository. Your job: write a realistic code change to the library that BREAKS this property while the crate still compiles and the repository's existing test suite still passes, and a demonstration that fails with your change and passes without it.
 
 Property {p['id']}: {p['title']}
@@ -10,18 +14,18 @@ Statement: {p['statement']}
 Quantified over: {p['quantifier']['text']}
 Code it is anchored in: {', '.join(p['anchors']['files'])}
 
-Your scratch worktree (a git worktree of the repository, yours alone): /tmp/seed-{pid}
-Write your results to: /tmp/seed-out/{pid}/  (create it)
+Your scratch worktree (a git worktree of the repository, yours alone): /tmp/seed-{sid}
+Write your results to: /tmp/seed-out/{sid}/  (create it)
 
-Rules:
-- Work ONLY inside /tmp/seed-{pid} and /tmp/seed-out/{pid}. Never touch /repo or /verif (do not read /verif either). No network is available; use `--offline` with cargo.
+{extra}Rules:
+- Work ONLY inside /tmp/seed-{sid} and /tmp/seed-out/{sid}. Never touch /repo or /verif (do not read /verif either). No network is available; use `--offline` with cargo.
 - The change must be the kind of mistake a maintainer could plausibly make in a refactoring or optimisation (an off-by-one, a dropped condition, a swapped argument, a wrong iterator adaptor, a cache that is not invalidated, two sites that each look fine alone ...), NOT an obviously malicious special case like `if input == "magic"`.
 - It must need something specific to manifest: an unusual input, a multi-step sequence of API calls, a particular combination of constructs, a boundary value, or two cooperating sites. Ordinary use and the existing tests must NOT expose it. Prefer subtle over blatant.
 - It must compile (`cargo build --workspace --offline`) and the full existing test suite must still pass unedited: run `cargo test --workspace --no-fail-fast --offline` in the worktree (about 1-2 minutes) and check that nothing fails. If a test fails, make the change subtler.
 - Do not edit, delete or add files under any `tests/` directory or any existing test module, and do not change Cargo.toml / Cargo.lock.
-- Deliverables in /tmp/seed-out/{pid}/:
-  1. `patch.diff` - output of `git -C /tmp/seed-{pid} diff` (changes to library sources only).
-  2. `demo/` - a demonstration: a small standalone cargo project (path dependencies on /tmp/seed-{pid}/crates/...; copy /tmp/seed-{pid}/Cargo.lock next to its Cargo.toml and build with --offline) whose `cargo run --offline` exits 0 on the unmodified library and exits non-zero (or panics) with your change applied. Verify both directions yourself (use `git stash` / `git stash pop` in the worktree to toggle).
+- Deliverables in /tmp/seed-out/{sid}/:
+  1. `patch.diff` - output of `git -C /tmp/seed-{sid} diff` (changes to library sources only).
+  2. `demo/` - a demonstration: a small standalone cargo project (path dependencies on /tmp/seed-{sid}/crates/...; copy /tmp/seed-{sid}/Cargo.lock next to its Cargo.toml and build with --offline) whose `cargo run --offline` exits 0 on the unmodified library and exits non-zero (or panics) with your change applied. Verify both directions yourself (toggle with `git diff > p.diff; git apply -R p.diff` and `git apply p.diff`; never use `git stash`, it is shared between worktrees).
   3. `notes.md` - which part of the property the change breaks, what exactly is needed for it to manifest (the input / call sequence / combination), why the existing tests do not notice, and the exact commands you ran with their outcome.
 - Keep the worktree with your change applied at the end (so `git diff` shows it).
 - Finish with a short summary: files changed, the trigger, test-suite result, demo result in both directions.""")
